@@ -76,6 +76,9 @@ impl Check for C19 {
         }
         json!({"net": net, "mode": mode, "default_touched": g.chance(60), "client_scheme": client_scheme, "server_schemes": schemes,
             "same_scheme": mode == "session" && g.chance(15), "garbage_push": g.chance(25), "sessions": g.range(2, 4),
+            // session mode: the push is adopted while one writer is parked inside the transport and another one is
+            // queued behind it
+            "racing": g.chance(50), "race_payloads": [*g.pick(&[1u64, 50, 300, 1200]), *g.pick(&[1u64, 50, 300, 1200])],
             "payloads": (0..10).map(|_| *g.pick(&[0u64, 1, 50, 300, 1200, 4000])).collect::<Vec<_>>()})
     }
     fn horizon(&self, _p: &Value) -> Duration {
@@ -115,7 +118,7 @@ impl Check for C19 {
         out
     }
     fn rule(&self) -> &'static str {
-        "one case = {built-in default factory touched before or not} x client scheme (built-in default or a seeded scheme) x 1-3 successive server schemes x 2-4 sessions x optional unparsable push; mode session (45%): real client Session against a real server Session with a differing (or, 15%, identical) scheme on plaintext recording pipes — the server must push iff the md5 differs, the packets the client writes after the push must satisfy the C05 acceptor under the pushed scheme; mode client (55%): real Client against a scripted TLS server that records the md5 every new session announces, pushes its current scheme when it differs, switches schemes between sessions and may push garbage — later sessions must announce the pushed scheme, the pushed-to session must hold it, an unparsable push must change nothing; every case is non-trivial; distinct = distinct (plan hash, poll-order fingerprint)"
+        "one case = {built-in default factory touched before or not} x client scheme (built-in default or a seeded scheme) x 1-3 successive server schemes x 2-4 sessions x optional unparsable push; mode session (45%): real client Session against a real server Session with a differing (or, 15%, identical) scheme on plaintext recording pipes — the server must push iff the md5 differs, the packets the client writes after the push must satisfy the C05 acceptor under the pushed scheme; in half of these the push is adopted while one writer is parked inside the transport (write gate) and a second one is queued on the writer lock, whose packet must already follow the pushed scheme; mode client (55%): real Client against a scripted TLS server that records the md5 every new session announces, pushes its current scheme when it differs, switches schemes between sessions and may push garbage — later sessions must announce the pushed scheme, the pushed-to session must hold it, an unparsable push must change nothing; every case is non-trivial; distinct = distinct (plan hash, poll-order fingerprint)"
     }
     fn real_components(&self) -> Vec<&'static str> {
         vec!["Session::handle_frame (Settings on the server, UpdatePaddingScheme on the client)", "PaddingFactory::default / update_default (process-wide default)", "Client::create_new_session (which scheme new sessions announce and use)", "write_with_padding (session mode)"]
@@ -166,6 +169,11 @@ async fn run_session(plan: &Value) -> Outcome {
         return out;
     };
     client.disable_buffering();
+    let racing = !same && plan["racing"].as_bool().unwrap_or(false);
+    if racing {
+        // the server's answer stays in the network for now
+        s2c.set_stalled(true);
+    }
     // packet 1 carries Settings: the server answers (push iff md5 differs)
     let _ = client.write_data_frame(st.id(), Bytes::from_static(b"\x01\x0a\x00\x00\x01\x00\x50")).await;
     sleep(Duration::from_secs(2)).await;
@@ -180,7 +188,39 @@ async fn run_session(plan: &Value) -> Outcome {
         out.viol("push-rule", "not-pushed-although-md5-differs", format!("client announced md5 {} and the server holds {}; {} UpdatePaddingScheme frame(s) were sent", client_f.md5(), md5hex(&server_scheme), pushed.len()));
         return out;
     }
-    // optional garbage push from the peer side cannot be injected here (real server); see client mode
+    // racing variant: writer A parks inside the transport (holding the writer lock), writer B queues behind it,
+    // the push is adopted, then the transport drains: A's packet was under way before the adoption (either
+    // scheme), B's packet reaches the transport after it and must be shaped by the pushed scheme
+    let mut in_flight_group: Option<usize> = None;
+    if racing {
+        if client.verif_padding_md5().await != client_f.md5() {
+            out.viol("harness", "race-setup", "the push was adopted although it had not been delivered yet");
+            return out;
+        }
+        c2s.set_write_gate(true);
+        let mut hs = Vec::new();
+        for (i, len) in plan["race_payloads"].as_array().into_iter().flatten().enumerate() {
+            let (c, sid) = (client.clone(), st.id());
+            let d = content(0x1900 + i as u64, len.as_u64().unwrap_or(1) as usize);
+            hs.push(anytls_simnet::spawn(async move { c.write_data_frame(sid, Bytes::from(d)).await.is_ok() }));
+            sleep(Duration::from_millis(5)).await;
+        }
+        s2c.set_stalled(false);
+        sleep(Duration::from_millis(200)).await;
+        if client.verif_padding_md5().await != md5hex(&server_scheme) {
+            out.viol("not-adopted", "push-not-adopted-while-writers-are-parked", "200 ms after the push was delivered the session still holds the old scheme (a writer is parked in the transport)");
+            return out;
+        }
+        c2s.set_write_gate(false);
+        for h in hs {
+            if !matches!(timeout(Duration::from_secs(10), h).await, Ok(Ok(true))) {
+                out.viol("session-disturbed", "write-failed-after-push", "a write that was parked while the push arrived failed or never returned");
+                return out;
+            }
+        }
+        in_flight_group = Some(groups_before);
+        anytls_simnet::world::probe("c19.push_adopted_while_writers_parked");
+    }
     // later packets of this session
     for (i, p) in plan["payloads"].as_array().into_iter().flatten().enumerate() {
         let d = content(0x19 + i as u64, p.as_u64().unwrap_or(0) as usize);
@@ -202,6 +242,9 @@ async fn run_session(plan: &Value) -> Outcome {
     // group k (0-based in this recording) is session packet k+1
     for (gi, (writes, bytes)) in groups.iter().enumerate().skip(groups_before) {
         let k = gi + 1;
+        if in_flight_group == Some(gi) {
+            continue;
+        }
         let (frames, residue) = rc::parse_all(bytes);
         if residue != 0 {
             out.viol("shape", "group-not-framed", format!("packet {} is not frame aligned", k));
